@@ -1,0 +1,23 @@
+//go:build verif
+
+// Verification hooks: run the unexported command bodies with an injected client, compiled only with -tags verif.
+package pause
+
+import (
+	"io"
+
+	"k8s.io/cli-runtime/pkg/genericclioptions"
+	"sigs.k8s.io/controller-runtime/pkg/client"
+)
+
+// VerifRunPause runs `pause-rolling-update` (pause=true) or `unpause-rolling-update` (pause=false).
+func VerifRunPause(c client.Client, namespace, name string, pause bool) error {
+	want := unpaused
+	if pause {
+		want = paused
+	}
+	o := newPauseOptions(genericclioptions.IOStreams{Out: io.Discard, ErrOut: io.Discard}, want)
+	o.client, o.userNamespace, o.userExtendedDaemonSetName, o.args = c, namespace, name, []string{name}
+
+	return o.run()
+}
